@@ -1076,7 +1076,7 @@ func oracles08(r *Run, t *c08Tree, flat []flatRes, bo buildOut) {
 				r.Count("oracle", "own_selector")
 				if ok, key := subKV(selOf(x.out), podLabelsOf(x.out)); !ok {
 					report("own_selector", classify("own_selector", x.fr, key, selIn),
-						fmt.Sprintf("%s %s: selector %v no longer matches its template labels %v (key %c08q)", kind, x.fr.Res.Name, selOf(x.out), podLabelsOf(x.out), key))
+						fmt.Sprintf("%s %s: selector %v no longer matches its template labels %v (key %q)", kind, x.fr.Res.Name, selOf(x.out), podLabelsOf(x.out), key))
 				}
 			}
 		}
@@ -1136,7 +1136,7 @@ func oracles08(r *Run, t *c08Tree, flat []flatRes, bo buildOut) {
 						continue
 					}
 					report("exact_locations", "C08/frame",
-						fmt.Sprintf("%s %s: value at %s changed from %c08q to %c08q", kind, x.fr.Res.Name, p, v, w))
+						fmt.Sprintf("%s %s: value at %s changed from %q to %q", kind, x.fr.Res.Name, p, v, w))
 				}
 			}
 			for p := range lo {
@@ -1175,7 +1175,7 @@ func oracles08(r *Run, t *c08Tree, flat []flatRes, bo buildOut) {
 			r.Count("oracle", "selects_preserved")
 			if ok, key := subKV(selOf(s.out), podLabelsOf(w.out)); !ok {
 				report("selects_preserved", classify("selects_preserved", s.fr, key, selIn),
-					fmt.Sprintf("%s %s selected the pods of %s %s before the build and no longer does: selector %v, pod labels %v (key %c08q)",
+					fmt.Sprintf("%s %s selected the pods of %s %s before the build and no longer does: selector %v, pod labels %v (key %q)",
 						s.fr.Res.Kind, s.fr.Res.Name, w.fr.Res.Kind, w.fr.Res.Name, selOf(s.out), podLabelsOf(w.out), key))
 			}
 		}
@@ -1500,7 +1500,7 @@ func oracleFields08(r *Run, t *c08Tree, flat []flatRes, bo buildOut) {
 						cls += "/default-row-shadowed-by-narrower-custom-spec"
 					}
 					r.Violation(OracleViolation{Law: "fields_only_add", Class: cls, Replay: t,
-						Detail: fmt.Sprintf("%s %s: label %c08q reaches %s without the custom `fields` of the labels entries but not with them (%v vs %v)",
+						Detail: fmt.Sprintf("%s %s: label %q reaches %s without the custom `fields` of the labels entries but not with them (%v vs %v)",
 							fr.Res.Kind, fr.Res.Name, e.K, name, without, with)})
 				}
 			}
@@ -1596,7 +1596,7 @@ func replayC08(path string) (bool, string, error) {
 	}
 	if wrap.Filter != nil {
 		cls, doc, msg := execFilter(*wrap.Filter)
-		return cls == ClsPanic, fmt.Sprintf("class=%s msg=%c08q after=%s", cls, msg, docString(doc)), nil
+		return cls == ClsPanic, fmt.Sprintf("class=%s msg=%q after=%s", cls, msg, docString(doc)), nil
 	}
 	if t == nil {
 		return false, "", fmt.Errorf("replay file has neither a build tree nor a filter case")
@@ -1608,7 +1608,7 @@ func replayC08(path string) (bool, string, error) {
 	oracles08(r, t, flat, bo)
 	oracleFields08(r, t, flat, bo)
 	var b strings.Builder
-	fmt.Fprintf(&b, "class=%s msg=%c08q\n", bo.cls, bo.msg)
+	fmt.Fprintf(&b, "class=%s msg=%q\n", bo.cls, bo.msg)
 	for _, fr := range flat {
 		if o, ok := bo.outs[fr.Res.Name]; ok {
 			s, _ := o.String()
